@@ -2,3 +2,13 @@
 export GOFLAGS=-mod=mod GOPROXY=off GOSUMDB=off GOTOOLCHAIN=local
 export CARGO_NET_OFFLINE=true PIP_NO_INDEX=1
 export VERIF_DIR="${VERIF_DIR:-/verif}"
+
+# The repository under test. Registered checks always use /repo; VERIF_REPO lets the seed runner
+# point the same scripts at a scratch copy so that /repo itself is never patched.
+export VERIF_REPO="${VERIF_REPO:-/repo}"
+# modflag <tmpdir>: prints a -modfile flag selecting a go.mod whose replace points at $VERIF_REPO
+modflag() {
+  if [ "$VERIF_REPO" = "/repo" ]; then return 0; fi
+  sed "s#=> /repo#=> $VERIF_REPO#" "$VERIF_DIR/mc/go.mod" > "$1/go.mod"
+  echo "-modfile=$1/go.mod"
+}
